@@ -4,8 +4,12 @@
    error of + - * is OVERFLOW between two Integers; conversion on assignment fails only with OVERFLOW, TYPE MISMATCH or
    STRING TOO LONG and otherwise yields a value of the target type (C06_store_typed: nothing else is ever stored);
    compiled expression code computes what the reference semantics prescribes (C01_compiled_expression_correct).
-   NOT proved: that the parser builds the tree the precedence table prescribes (differential against a reference
-   precedence-climbing parser in the C02 monitor), numeric literal typing, the numeric functions. *)
+   Proved (Proofs/ParseExpr.v): the expression parser builds the tree the table prescribes -- for every expression tree over
+   identifiers, literals, unary minus, NOT and the binary operators, at every depth, the parser run on the tokens of the
+   tree's minimally parenthesised rendering returns that tree (columns aside) and stops in front of what follows
+   (C02_parser_builds_the_tree); more fuel never changes a result (C02_fuel_monotone).
+   NOT proved: array / function-call arguments inside expressions, unary plus, numeric literal typing, the numeric
+   functions; that the model's fuel formula suffices (the Rust parser has no fuel; differential). *)
 From BL Require Import Base.Prelude Base.Floats Mach.Val Mach.Ops Mach.Var Lang.Token Lang.Parse Proofs.Promote.
 Local Open Scope N_scope.
 
@@ -76,3 +80,49 @@ Theorem C02_convert_errors : forall t v e, convert_to t v = Err e ->
   ecode e = E_Overflow \/ ecode e = E_TypeMismatch \/ ecode e = E_StringTooLong.
 Proof. exact convert_errors. Qed.
 Print Assumptions C02_convert_errors.
+
+(* ---- the parser builds the tree the table prescribes (Proofs/ParseExpr.v) ---- *)
+From BL Require Import Lang.Token Lang.Ast Lang.Parse Proofs.ParseExpr.
+From Coq Require Import String.
+Local Open Scope string_scope.
+
+(* more fuel (the model's stand-in for the Rust call stack) never changes a parse result *)
+Theorem C02_fuel_monotone : forall f,
+  (forall vm p, le_ok (descend f vm p) (descend (S f) vm p))
+  /\ (forall vm p lhs, le_ok (climb f vm p lhs) (climb (S f) vm p lhs))
+  /\ (forall vm, le_ok (expr_list f vm) (expr_list (S f) vm)).
+Proof. exact fuel_mono. Qed.
+Print Assumptions C02_fuel_monotone.
+
+(* the invariant of precedence climbing, for every expression tree over identifiers, literals, unary minus, NOT and the
+   eighteen binary operators, at every nesting depth: the parser in front of the tokens of x (operands that bind at least
+   as strongly as the position demands) behaves like its loop holding the tree of x *)
+Theorem C02_precedence_climbing : forall x, wf x ->
+  forall p n rest st, p < n -> n <= eprec x -> lead_le n rest -> rep st (raw x ++ rest) -> like_climb p st x rest.
+Proof. exact key. Qed.
+Print Assumptions C02_precedence_climbing.
+
+(* the parser, in front of the minimally parenthesised rendering of x followed by anything that cannot continue an
+   expression, returns the tree of x -- columns aside -- and stands in front of what follows *)
+Theorem C02_parser_builds_the_tree : forall x rest st, wf x -> rep st (raw x ++ rest) -> lead_le 0 rest ->
+  exists f e st', descend f [] 0 st = Ok (e, st') /\ strip e = tree x /\ rep st' rest
+                  /\ forall g, (f <= g)%nat -> descend g [] 0 st = Ok (e, st').
+Proof. exact parser_builds_the_tree. Qed.
+Print Assumptions C02_parser_builds_the_tree.
+
+Theorem C02_expression_parses_rendering : forall x rest cs ce, wf x -> forallb clean rest = true -> lead_le 0 rest ->
+  exists f e st', expression f (mkP (raw x ++ rest) None false cs ce) = Ok (e, st') /\ strip e = tree x /\ rep st' rest.
+Proof. exact expression_parses_rendering. Qed.
+Print Assumptions C02_expression_parses_rendering.
+
+(* the scanner's tokens for A-B-C, A-(B-C), -2^2, NOT A=B, A+B*C, (A+B)*C are the renderings of the trees one expects *)
+Theorem C02_rendering_examples :
+  Lex.lex (s2l "A-B-C") = Ok (None, raw (ABin OMinus (ABin OMinus idA idB) idC))
+  /\ Lex.lex (s2l "A-(B-C)") = Ok (None, raw (ABin OMinus idA (ABin OMinus idB idC)))
+  /\ Lex.lex (s2l "-2^2") = Ok (None, raw (ANeg (ABin OCaret two two)))
+  /\ Lex.lex (s2l "NOT A=B") = Ok (None, TOp ONot :: TWs 1 :: raw (ABin OEq idA idB))
+  /\ Lex.lex (s2l "A+B*C") = Ok (None, raw (ABin OPlus idA (ABin OMul idB idC)))
+  /\ Lex.lex (s2l "(A+B)*C") = Ok (None, raw (ABin OMul (ABin OPlus idA idB) idC))
+  /\ wf (ABin OMinus (ABin OMinus idA idB) idC) /\ wf (ANeg (ABin OCaret two two)).
+Proof. exact renderings. Qed.
+Print Assumptions C02_rendering_examples.
